@@ -180,7 +180,7 @@ func (g *bankGen) decorate(f *Fn) {
 		}
 		if g.pct(g.bk.PFaultKind, "faultkind") {
 			f.EK = g.pick(2, "ek")
-			f.PK = g.pick(5, "pk")
+			f.PK = g.pick(6, "pk")
 		}
 	}
 	if g.pct(g.bk.PDur, "dur?") {
